@@ -95,38 +95,48 @@ NidFor(k) == IF k = "logoutreq" THEN <<"plain">> ELSE <<>>
 
 Texts(n) == StringsUpTo(n) \cup LengthTexts
 
+\* The families are predicates over (cfg, in) rather than one big set of cases: TLC enumerates
+\* nested quantifiers linearly, while normalising a set of 10^5 records is quadratic.
+
 \* relay-state strings through every binding of every browser-carried kind
 FamRelay(n) ==
-  { <<[BaseCfg EXCEPT !.query = q, !.method = m], In("relay", k, b, rs, NidFor(k))>> :
-      q \in Queries, m \in {"", "rsa-sha256"}, k \in Kinds \ {"artifact"}, b \in Bindings, rs \in Texts(n) }
+  \E q \in Queries, m \in {"", "rsa-sha256"}, k \in Kinds \ {"artifact"}, b \in Bindings, rs \in Texts(n) :
+      /\ cfg = [BaseCfg EXCEPT !.query = q, !.method = m]
+      /\ in = In("relay", k, b, rs, NidFor(k))
 \* name-ID strings through the logout request
 FamNameID(n) ==
-  { <<[BaseCfg EXCEPT !.method = m], In("nameid", "logoutreq", b, rs, nid)>> :
-      m \in {"", "rsa-sha256"}, b \in Bindings, rs \in {<<>>, <<"plain">>}, nid \in Texts(n) }
+  \E m \in {"", "rsa-sha256"}, b \in Bindings, rs \in {<<>>, <<"plain">>}, nid \in Texts(n) :
+      /\ cfg = [BaseCfg EXCEPT !.method = m]
+      /\ in = In("nameid", "logoutreq", b, rs, nid)
 \* configuration: name-ID format, ForceAuthn, RequestedAuthnContext
 FamConfig ==
-  { <<[BaseCfg EXCEPT !.query = q, !.method = mk[1], !.key = mk[2], !.nidfmt = f, !.force = fa, !.rac = r],
-      In("config", "authn", b, <<"plain">>, <<>>)>> :
-      q \in {"none", "abc"}, mk \in {<<"", "rsa2048">>, <<"rsa-sha256", "rsa2048">>, <<"ecdsa-sha256", "ec256">>},
-      f \in NidFmts, fa \in Forces, r \in BOOLEAN, b \in Bindings }
-  \cup { <<[BaseCfg EXCEPT !.nidfmt = f], In("config", "logoutreq", b, <<"plain">>, <<"plain">>)>> : f \in NidFmts, b \in Bindings }
+  \/ \E q \in {"none", "abc"}, mk \in {<<"", "rsa2048">>, <<"rsa-sha256", "rsa2048">>, <<"ecdsa-sha256", "ec256">>},
+        f \in NidFmts, fa \in Forces, r \in BOOLEAN, b \in Bindings :
+      /\ cfg = [BaseCfg EXCEPT !.query = q, !.method = mk[1], !.key = mk[2], !.nidfmt = f, !.force = fa, !.rac = r]
+      /\ in = In("config", "authn", b, <<"plain">>, <<>>)
+  \/ \E f \in NidFmts, b \in Bindings :
+      /\ cfg = [BaseCfg EXCEPT !.nidfmt = f]
+      /\ in = In("config", "logoutreq", b, <<"plain">>, <<"plain">>)
 \* C13: method x key table through every kind and binding
 SigRelaysQ == { <<>>, <<"plain">>, <<"space", "nonascii">>, <<"amp", "eq">> }
 SigRelaysT == StringsUpTo(1) \cup SigRelaysQ \cup { <<"L81">>, <<"plus", "pct">>, <<"semicolon", "dquote">> }
 FamSig(relays, queries) ==
-  { <<[BaseCfg EXCEPT !.query = q, !.method = m, !.key = ky], In("sig", k, b, rs, NidFor(k))>> :
-      q \in queries, m \in MethodCfgs, ky \in Keys, k \in Kinds \ {"artifact"}, b \in Bindings, rs \in relays }
-  \cup { <<[BaseCfg EXCEPT !.method = m, !.key = ky], In("sig", "artifact", "soap", <<>>, <<>>)>> : m \in MethodCfgs, ky \in Keys }
+  \/ \E q \in queries, m \in MethodCfgs, ky \in Keys, k \in Kinds \ {"artifact"}, b \in Bindings, rs \in relays :
+      /\ cfg = [BaseCfg EXCEPT !.query = q, !.method = m, !.key = ky]
+      /\ in = In("sig", k, b, rs, NidFor(k))
+  \/ \E m \in MethodCfgs, ky \in Keys :
+      /\ cfg = [BaseCfg EXCEPT !.method = m, !.key = ky]
+      /\ in = In("sig", "artifact", "soap", <<>>, <<>>)
 \* ID freshness: arbitrary sequences of creations
-FamSeq == { <<BaseCfg, In("seq", "seq", "none", <<>>, <<>>)>> }
+FamSeq == cfg = BaseCfg /\ in = In("seq", "seq", "none", <<>>, <<>>)
 
-Cases == CASE Family = "C12q" -> FamRelay(2) \cup FamNameID(2) \cup FamConfig \cup FamSeq
-           [] Family = "C12t" -> FamRelay(3) \cup FamNameID(3) \cup FamConfig \cup FamSeq
+Cases == CASE Family = "C12q" -> FamRelay(2) \/ FamNameID(2) \/ FamConfig \/ FamSeq
+           [] Family = "C12t" -> FamRelay(3) \/ FamNameID(3) \/ FamConfig \/ FamSeq
            [] Family = "C13q" -> FamSig(SigRelaysQ, Queries)
            [] Family = "C13t" -> FamSig(SigRelaysT, Queries)
 
 NoWire == [v \in Variants |-> <<>>]
-Init == /\ \E c \in Cases : cfg = c[1] /\ in = c[2]
+Init == /\ Cases
         /\ pc = IF in.kind = "seq" THEN "seq" ELSE "create"
         /\ rnd = 0 /\ ids = <<>> /\ msg = [kind |-> "none"]
         /\ outcome = "none" /\ sigform = "none"
